@@ -234,6 +234,51 @@ def gen_answer_statement(rng):
     return 'with ' + ', '.join(ctes) + ' ' + body
 
 
+def _selects(node, out=None, seen=None):
+    """every Select / Union node of a tree (generic attribute walk)"""
+    from mindsdb_sql.parser.ast import ASTNode
+    out = [] if out is None else out
+    seen = set() if seen is None else seen
+    if id(node) in seen:
+        return out
+    seen.add(id(node))
+    if isinstance(node, ASTNode):
+        if hasattr(node, 'limit') and hasattr(node, 'offset'):
+            out.append(node)
+        for v in vars(node).values():
+            _selects(v, out, seen)
+    elif isinstance(node, (list, tuple)):
+        for v in node:
+            _selects(v, out, seen)
+    elif isinstance(node, dict):
+        for v in node.values():
+            _selects(v, out, seen)
+    return out
+
+
+def _edit(attr, value_fn):
+    def f(tree):
+        n = 0
+        for sel in _selects(tree):
+            if getattr(sel, attr, None) is not None:
+                setattr(sel, attr, value_fn(getattr(sel, attr)))
+                n += 1
+        return n
+    return f
+
+
+def _mk_param(_old):
+    from mindsdb_sql.parser.ast import Parameter
+    return Parameter('?')
+
+
+# trees the planner can be handed although no dialect of the parser writes them: each optional clause removed on its own, LIMIT /
+# OFFSET given as placeholders (the property ranges over trees, not over texts)
+TREE_EDITS = {'drop_limit': _edit('limit', lambda o: None), 'drop_offset': _edit('offset', lambda o: None),
+              'limit_placeholder': _edit('limit', _mk_param), 'offset_placeholder': _edit('offset', _mk_param),
+              'drop_order_by': _edit('order_by', lambda o: None), 'drop_where': _edit('where', lambda o: None)}
+
+
 def internal_error_site(e):
     tb = traceback.extract_tb(e.__traceback__)
     for fr in reversed(tb):
@@ -266,7 +311,7 @@ def run(tier, seed, replay=None):
     inputs = [("select * from int1.t1 as t join proj.pred as m join int2.t2 as z on z.a = t.a using partition_size=2", 'names')]
     if replay:
         rp = json.loads(open(replay).read())
-        inputs = [(rp['sql'], rp.get('catalog', 'names'))] if 'sql' in rp else []
+        inputs = [(rp['sql'], rp.get('catalog', 'names')) + ((rp['tree_edit'],) if rp.get('tree_edit') else ())] if 'sql' in rp else []
         n = 0
     if not replay:
         inputs += [(sq, cn) for sq in plangen.EDGE_STATEMENTS for cn, _ in cats]
@@ -296,15 +341,38 @@ def run(tier, seed, replay=None):
         for s_ in ts_sql:
             for cn_ in (list(ts_meta) if tier != 'quick' else rng.sample(list(ts_meta), 6)):
                 inputs.append((s_, cn_))
+    if not replay:
+        # the same statements as trees with one optional clause removed / made a placeholder, under every kind of catalog
+        edited = []
+        lim_sql = [sq for sq, _ in inputs if ' limit ' in sq.lower() or ' order by ' in sq.lower()]
+        lim_sql += ['select * from int1.t1 limit 3 offset 1', 'select a, b from int1.t1 where a > 1 order by b limit 2 offset 2',
+                    'select * from int1.t1 join int2.t2 on t1.a = t2.a order by t1.a limit 2 offset 1',
+                    'select * from int1.t1 where a in (select a from int2.t2 limit 2 offset 1) limit 5 offset 1',
+                    'select * from (select * from int1.t1 limit 4 offset 1) as s limit 2 offset 1',
+                    'select a from int1.t1 union select a from int2.t2 limit 3 offset 1',
+                    'select * from int1.t1 as t join proj.pred as m limit 3 offset 1']
+        for sq in (lim_sql if tier != 'quick' else rng.sample(lim_sql[:-7], min(len(lim_sql) - 7, 80)) + lim_sql[-7:]):
+            for ed in TREE_EDITS:
+                for cn in (c for c, _ in cats):
+                    edited.append((sq, cn, ed))
+        if tier == 'quick':
+            keep = [e for e in edited if e[0] in lim_sql[-7:]]
+            rest = [e for e in edited if e[0] not in lim_sql[-7:]]
+            edited = keep + rng.sample(rest, min(len(rest), 600))
+        inputs += edited
     rows = []
-    stats = {'PlanningException': 0, 'NotImplementedError': 0, 'internal': 0, 'plans': 0, 'parse_error': 0}
+    stats = {'PlanningException': 0, 'NotImplementedError': 0, 'internal': 0, 'plans': 0, 'parse_error': 0, 'tree_edits': 0}
     internal = {}
-    for sql, cname in inputs:
+    for sql, cname, *ed_ in inputs:
         try:
             q = parse_sql(sql, 'mindsdb')
         except Exception:
             stats['parse_error'] += 1
             continue
+        if ed_:
+            if TREE_EDITS[ed_[0]](q) == 0:
+                continue
+            stats['tree_edits'] += 1
         import copy as _c
         lg = Logger()
         lg.install()
@@ -319,12 +387,12 @@ def run(tier, seed, replay=None):
         except Exception as e:
             stats['internal'] += 1
             key = (type(e).__name__, internal_error_site(e))
-            internal.setdefault(key, (sql, cname, str(e)[:200]))
+            internal.setdefault(key, (sql, cname, str(e)[:200], ed_[0] if ed_ else None))
             continue
         finally:
             lg.remove()
         stats['plans'] += 1
-        rows.append((sql, cname, dump_plan(plan), lg))
+        rows.append((sql + (f'   [tree edit: {ed_[0]}]' if ed_ else ''), cname, dump_plan(plan), lg))
     # ---- Coq: judge + construction correspondence
     names = []
     shard = 200
@@ -417,14 +485,15 @@ def run(tier, seed, replay=None):
         R.obligation(f'judge: the last step returns the rows of the query ({astats["judged"]} evaluations of {len(apreps)} plans in Coq)',
                      not abroken and len(R.violations) == n_before)
     # ---- internal errors while planning (exception hygiene): exploration
-    for (ecls, site), (sql, cname, msg) in internal.items():
+    for (ecls, site), (sql, cname, msg, ted) in internal.items():
         fd = [f for f in findings if f['classifier'].get('kind') == 'internal_error'
               and [ecls, site] in f['classifier']['sites']]
         if fd:
             R.known_finding(f'{fd[0]["id"]}: {fd[0]["what"]}')
         else:
-            R.violation({'sql': sql, 'catalog': cname, 'exception': ecls, 'raised_in': site, 'message': msg,
-                         'what': 'planning failed with an internal error instead of PlanningException / NotImplementedError'})
+            R.violation(dict({'sql': sql, 'catalog': cname, 'exception': ecls, 'raised_in': site, 'message': msg,
+                              'what': 'planning failed with an internal error instead of PlanningException / NotImplementedError'},
+                             **({'tree_edit': ted, 'how': f'parse the text, apply c09.TREE_EDITS[{ted!r}] to the tree, plan it'} if ted else {})))
     for e in broken:
         if not any(not nf for _, nf in R.violations):
             R.violation({'what': e.what, 'detail': e.detail, 'theorem': 'C09 correspondence'}, nofail=True)
